@@ -267,6 +267,13 @@ func (h *harness) runState(sf *StateFile, b budget, seed int64) {
 	hs := fnv.New64a()
 	hs.Write([]byte(sf.file))
 	rng := rand.New(rand.NewSource(seed ^ int64(hs.Sum64())))
+	if strings.HasPrefix(h.cfg, "H-") {
+		// honest-history states (C05): EVERY record the model accepts here that the client builder can express is
+		// built with the acting account's own RecordBuilder, inspected, appended, and the private views are checked
+		h.builderPass(c, sf, rng, 0)
+		h.rep.Sample(map[string]any{"cfg": h.cfg, "state_file": sf.file, "depth": sf.Depth, "path": fmt.Sprint(sf.Path), "mode": "client builder, all expressible records"})
+		return
+	}
 	h.builderPass(c, sf, rng, b.builderMax)
 
 	accepted := map[string]*AccEdge{}
